@@ -300,9 +300,68 @@ def _origin_window(prog: Program, run: Run, R: str = "C01.R1") -> None:
         raise AnalysisError(f"origin window: only {n} functions restore the origin (expected >= 8)")
 
 
+def _probe_restores(prog: Program, run: Run, R: str = "C01.R1") -> None:
+    """A decoder that PROBES (decodes something under `try: ... except DecodeError: pass` only to
+    look at it, after saving the cursor) puts the cursor back on every way out of the probe --
+    the normal one and the exception edge -- before anything else is decoded or returned."""
+    n = 0
+    for f in prog.iter_functions():
+        S = _state_name(f)
+        if S is None or not f.module.rel.startswith("odxtools/"):
+            continue
+        cur = f"{S}.cursor_byte_position"
+        for t in walk_no_nested(f.node):
+            if not isinstance(t, ast.Try):
+                continue
+            swallow = [h for h in t.handlers if not any(isinstance(y, ast.Raise) for b in h.body
+                                                        for y in ast.walk(b)) and not any(
+                isinstance(y, ast.Expr) and isinstance(y.value, ast.Call) and call_name(
+                    y.value) == "odxraise" for b in h.body for y in ast.walk(b))]
+            probes = [s_ for s_ in t.body if any(isinstance(y, ast.Call) and call_name(y) ==
+                                                  "decode_from_pdu" for y in ast.walk(s_))
+                      and not isinstance(s_, (ast.If, ast.For, ast.While, ast.Try, ast.With))]
+            if not swallow or not probes:
+                continue
+            saved = {x.targets[0].id for x in walk_no_nested(f.node) if isinstance(x, ast.Assign)
+                     and ast.unparse(x.value) == cur and isinstance(x.targets[0], ast.Name)}
+            if not saved:
+                continue
+            n += 1
+            cfg = CFG(f.node)
+            restores = [cfg.node_of(x) for x in walk_no_nested(f.node) if isinstance(
+                x, ast.Assign) and ast.unparse(x.targets[0]) == cur and isinstance(
+                    x.value, ast.Name) and x.value.id in saved]
+            pn = cfg.node_of(probes[0])
+            targets = [EXIT]
+            for x in walk_no_nested(f.node):
+                if isinstance(x, ast.stmt) and not isinstance(
+                        x, (ast.If, ast.For, ast.While, ast.Try, ast.With, ast.FunctionDef,
+                            ast.AsyncFunctionDef, ast.ClassDef)) and x is not \
+                        probes[0] and any(isinstance(y, ast.Call) and call_name(y) ==
+                                          "decode_from_pdu" for y in ast.walk(x)):
+                    targets.append(cfg.node_of(x))
+            bad = [tg for tg in targets if not cfg.must_pass(pn, restores, tg)]
+            C = f"{f.module.rel}:{f.qual}"
+            if not restores or bad:
+                run.violation(R, C, "probe-leaves-cursor",
+                              f"`{stmt_key(probes[0])}` is a probe (its DecodeError is swallowed), "
+                              f"but there is a way from it to "
+                              f"{'the next decode call' if bad and bad[0] != EXIT else 'the exit'} "
+                              f"that does not put {cur} back to the saved value: what follows is "
+                              "decoded from the wrong position whenever the probe fails after "
+                              "having consumed bytes", f"{f.module.rel}:{probes[0].lineno}",
+                              stmt_key(probes[0]))
+            else:
+                run.ok(R, C, "the cursor is put back on every way out of the probe (normal and "
+                       "exceptional)", f"{f.module.rel}:{probes[0].lineno}")
+    if n < 1:
+        raise AnalysisError("no probing decoder found (expected DynamicEndmarkerField)")
+
+
 def _pairing(prog: Program, run: Run) -> None:
     R = "C01.R1"
     _origin_window(prog, run, R)
+    _probe_restores(prog, run, R)
     n_origin = 0
     for f in prog.iter_functions():
         S = _state_name(f)
